@@ -33,6 +33,16 @@ class ABConverter(BaseConverter):
         return value.upper() if value in ('a', 'b', 'ab') else None
 
 
+class RestConverter(object):
+    """A duck-typed converter (deliberately NOT a BaseConverter subclass; supported by the router) that consumes
+    the remaining segments."""
+
+    CONSUME_MULTIPLE_SEGMENTS = True
+
+    def convert(self, value):
+        return '|'.join(value)
+
+
 class Res(object):
     def __init__(self, ident):
         self.ident = ident
@@ -78,6 +88,7 @@ REF_CONVERTERS = {
     ('uuid', None): _ref_uuid,
     ('ab', None): lambda v: v.upper() if v in ('a', 'b', 'ab') else None,
     ('path', None): 'PATH',
+    ('rest', None): 'REST',
 }
 
 
@@ -102,7 +113,7 @@ class RNode(object):
                 pos = m.end()
             parts.append(re.escape(raw[pos:]))
             self.regex = re.compile('^' + ''.join(parts) + '$')
-        self.is_path = self.kind == 2 and self.fields[0][1] == 'path'
+        self.is_path = self.kind == 2 and self.fields[0][1] in ('path', 'rest')
 
 
 class RefRouter(object):
@@ -140,6 +151,8 @@ class RefRouter(object):
                 conv = REF_CONVERTERS[(cname, arg)]
                 if conv == 'PATH':
                     return {name: '/'.join(path[level:])}
+                if conv == 'REST':
+                    return {name: '|'.join(path[level:])}
                 v = conv(seg)
                 if v is None:
                     if stats is not None:
@@ -210,7 +223,7 @@ def _seg_templates():
 
 
 VAR_SEGS = _seg_templates()
-PATH_SEGS = ['{f:path}', '{k:path}']
+PATH_SEGS = ['{f:path}', '{k:path}', '{g:rest}']
 BAD_SEGS = ['{f:nope}', '{class}', 'a b', '{f:path}x', 'x{g:path}', '{f:int(0)}', '{f:}', '{9x}', '{f}{f}', '{f} {g}']
 
 UUID_OK = '12345678-1234-5678-1234-567812345678'
@@ -229,7 +242,7 @@ def _fillers(cname, arg):
         return [UUID_OK, 'x']
     if cname == 'ab':
         return ['a', 'ab', 'c']
-    if cname == 'path':
+    if cname in ('path', 'rest'):
         return ['a']
     return ['a']
 
@@ -301,6 +314,7 @@ def probe_paths(templates, cap):
 def new_router():
     r = CompiledRouter()
     r.options.converters['ab'] = ABConverter
+    r.options.converters['rest'] = RestConverter
     return r
 
 
@@ -494,11 +508,11 @@ class Histories(Suite):
 
 
 POOL = ['/a', '/{f}', '/a/{g}', '/a/b', '/{f}/b', '/{f:int}/b', '/{f}-{g}', '/a/{g:path}', '/{f:ab}/{h}', '/x{f}/b',
-        '/{f:int}x{g}', "/it's/{h}", '/a\\b/{h}', '/{f}/{k:path}/x', '/a/{h}/zz', '/{f}/b/7']
+        '/{f:int}x{g}', "/it's/{h}", '/a\\b/{h}', '/{f}/{k:path}/x', '/a/{h}/zz', '/{f}/b/7', '/b/{g:rest}']
 
 
 class PoolEnum(Suite):
-    """Exhaustive: every ordered selection of <= 2 (quick) / <= 3 (thorough) templates from a 16-template pool (incl.
+    """Exhaustive: every ordered selection of <= 2 (quick) / <= 3 (thorough) templates from a 17-template pool (incl.
     one unacceptable template and literals with quote / backslash) x both compile flags on the last add, all
     representative paths."""
 
